@@ -32,6 +32,7 @@ def rule_occupant(ck, rid="C13.R2"):
     for n, t in stores:
         vacant = False
         for a, tr in facts_at(fl, n):
+            a = fl.expand(a, n)           # `occupant = self.ev; if occupant is not None: raise` tests the same thing
             if isinstance(a, ast.Compare) and len(a.ops) == 1 and isinstance(a.comparators[0], ast.Constant) and a.comparators[0].value is None:
                 k = key_of(a.left, EVSE_EV.syn)
                 isnone = isinstance(a.ops[0], (ast.Is, ast.Eq))
@@ -325,6 +326,58 @@ def single_return(repo, cls, name):
     return m, fl, rets
 
 
+def combined_return(m, fl):
+    """the value of a function written with guard-clause returns as one (expanded) expression:
+        `if c: return X` REST            ->  X if c else <REST>
+    with the boolean identities that make short-circuit idioms readable again (c and X are expanded first):
+        c if c else Y  = c or Y ;   c if not c else Y = c and Y ;   True if c else Y = c or Y ;   False if c else Y = not c and Y.
+    Only straight-line bodies of assignments / guard returns / a final return are combined; anything else gives None."""
+    def same(a, b):
+        return canon(a) == canon(b)
+
+    def neg(e):
+        return e.operand if isinstance(e, ast.UnaryOp) and isinstance(e.op, ast.Not) else ast.UnaryOp(op=ast.Not(), operand=e)
+
+    def node_of(st):
+        return fl.cfg.by_stmt.get(id(st))
+
+    def go(stmts):
+        if not stmts:
+            return None
+        st = stmts[0]
+        if isinstance(st, ast.Return):
+            nd = node_of(st)
+            return fl.expand(st.value, nd) if st.value is not None and nd is not None else None
+        if isinstance(st, (ast.Assign, ast.AnnAssign, ast.Expr, ast.Pass)) and not (isinstance(st, ast.Expr) and not isinstance(st.value, ast.Constant)):
+            return go(stmts[1:])
+        if isinstance(st, ast.If):
+            tn = node_of(st)
+            if tn is None:
+                return None
+            c = fl.expand(st.test, tn)
+            a = go(st.body + ([] if st.body and isinstance(st.body[-1], ast.Return) else stmts[1:]))
+            b = go((st.orelse if st.orelse else []) + ([] if st.orelse and isinstance(st.orelse[-1], ast.Return) else stmts[1:]))
+            if a is None or b is None:
+                return None
+            if same(a, c) or (isinstance(a, ast.Constant) and a.value is True):
+                return ast.BoolOp(op=ast.Or(), values=[c, b])
+            if same(a, neg(c)) is True and False:
+                pass
+            if isinstance(c, ast.UnaryOp) and isinstance(c.op, ast.Not) and (same(a, c.operand) or (isinstance(a, ast.Constant) and a.value is False)):
+                return ast.BoolOp(op=ast.And(), values=[c.operand, b])
+            if isinstance(a, ast.Constant) and a.value is False:
+                return ast.BoolOp(op=ast.And(), values=[neg(c), b])
+            if same(b, c) or (isinstance(b, ast.Constant) and b.value is False):
+                return ast.BoolOp(op=ast.And(), values=[c, a])
+            return ast.IfExp(test=c, body=a, orelse=b)
+        return None
+    body = list(m.node.body)
+    if body and isinstance(body[0], ast.Expr) and isinstance(body[0].value, ast.Constant) and isinstance(body[0].value.value, str):
+        body = body[1:]
+    e = go(body)
+    return ast.fix_missing_locations(e) if e is not None else None
+
+
 def rule_agreement(ck, rid="C13.R4"):
     repo = ck.repo
     R = lambda c, s: resolve_prop(repo, c, s)
@@ -341,8 +394,12 @@ def rule_agreement(ck, rid="C13.R4"):
         ck.require(atol_default == 1e-3, rid, m, f"{atol_name}={src(dflt) if dflt is not None else None}", ok="default tolerance 1e-3 A",
                    bad="the default acceptance tolerance must be 1e-3", sink=f"{cname}-atol-default")
         if len(rets) != 1:
-            raise AnalysisError(f"{cname}._valid_rate: expected a single return, found {len(rets)}")
-        got = describe(fl.expand(rets[0].expr, rets[0]), fl, rets[0], cls, repo, pilot, atol_name, atol_default)
+            ce = combined_return(m, fl)
+            if ce is None:
+                raise AnalysisError(f"{cname}._valid_rate: expected a single return, found {len(rets)}")
+            got = describe(ce, fl, rets[-1], cls, repo, pilot, atol_name, atol_default)
+        else:
+            got = describe(fl.expand(rets[0].expr, rets[0]), fl, rets[0], cls, repo, pilot, atol_name, atol_default)
         adv_m, adv_fl, adv_rets = single_return(repo, cls, "allowable_pilot_signals")
         if len(adv_rets) != 1:
             raise AnalysisError(f"{cname}.allowable_pilot_signals: expected a single return")
